@@ -1,7 +1,7 @@
 (** C14 -- scripts execute exactly the command sequence their block structure
     prescribes; unbalanced scripts are diagnosed. Statements only. *)
 From Cicada Require Import Base.Chars Base.Peg Gen.LocustGrammar Model.Script Model.ScriptAst
-  Proofs.ScriptProofs Proofs.PegProofs Proofs.LocustParse.
+  Proofs.ScriptProofs Proofs.PegProofs Proofs.LocustParse Proofs.LocustBlocks.
 From Coq Require Import ZArith String Ascii.
 
 (** 1. The interpreter of scripting.rs (run_exp and its helpers, transcribed, with the
@@ -21,6 +21,11 @@ Theorem C14_interp :
   run_exp W run_line for_words set_var eoe n d (TNode r txt (kids_of_block b)) in_loop w =
   sem_block W run_line for_words set_var e n b in_loop w.
 Proof. exact run_exp_sem. Qed.
+
+(** The pair tree carries trim(as_str); since d2f4d24 run_exp / run_exp_test_br read
+    trim_cmd(as_str), which is the same unless the trimmed text ends in a backslash. *)
+Theorem C14_trim_cmd : forall s, count_bs (rev (trim s)) = 0%nat -> trim_cmd s = trim s.
+Proof. exact trim_cmd_is_trim. Qed.
 
 (** 2. Parser correctness, full statement (NOT proved in general: carried by the
     correspondence layer L1b on every run; instances below). *)
@@ -63,23 +68,46 @@ Theorem C14_parse_instances :
   (wfp_block wit1 = true /\ parse_ok wit1) /\ (wfp_block wit2 = true /\ parse_ok wit2).
 Proof. split; split; [vm_compute; reflexivity | prove_parse_ok | vm_compute; reflexivity | prove_parse_ok]. Qed.
 
-(** The proved fragment of C14_parse_full, UNBOUNDED: flat scripts -- any number of command lines
-    (break / continue included), no indentation; every line free of CR / LF, not starting or ending
-    with white space, not starting with `if `, `for `, `else if `, `else`, `fi`, `while `, `done`
-    ([frag_flat]).  For every such script the generic PEG interpreter on the regenerated grammar
-    returns, for all sufficiently large fuel, the complete parse whose trimmed tree is
-    tree_of_script (induction over the lines, per-rule lemmas in Proofs/LocustParse.v) ... *)
-Theorem C14_parse_partial : forall b, frag_flat b = true ->
+(** The proved fragment of C14_parse_full, UNBOUNDED ([frag_block]): scripts built, to ANY nesting
+    depth, from
+      - command lines (break / continue included),
+      - `if cond` NL body `fi`,   `if cond` NL body `else` NL body `fi`,
+      - `while cond` NL body `done`,
+    in the newline spelling without indentation and without blank lines, every body non-empty;
+    a command line is free of CR / LF, does not start or end with white space and does not start
+    with `if `, `for `, `else if `, `else`, `fi`, `while `, `done`; a condition is one line without
+    `;` and without white space at either end (inner blanks allowed in both).
+    NOT in the fragment: `for`, `else if` arms, the `; then` / `; do` spelling, indentation, blank lines.
+    For every such script the generic PEG interpreter on the regenerated grammar returns, for all
+    sufficiently large fuel, the complete parse whose trimmed, EOI-stripped tree is tree_of_script
+    (compositional per-rule lemmas + induction over the syntax tree: Proofs/LocustBlocks.v) ... *)
+Theorem C14_parse_partial : forall b, frag_block b = true ->
   exists kids,
     evals l_grammar (PRef L_EXP) AtNon 0 (render_block b) (POk (List.length (render_block b)) nil kids) /\
     map (fun k => strip_eoi L_EOI (annotate (render_block b) k)) kids = (tree_of_script b :: nil).
-Proof. exact parse_flat. Qed.
+Proof. exact parse_blocks. Qed.
 
 (** ... and with the fuel parse_from computes from the input it is that result or OutOfFuel, never
     a different tree or a failure. (The real parser has no fuel; L1a never saw OutOfFuel.) *)
-Theorem C14_parse_partial_from : forall b, frag_flat b = true ->
+Theorem C14_parse_partial_from : forall b, frag_block b = true ->
+  parse_from l_grammar L_EXP (render_block b) = PFuel \/ parse_ok b.
+Proof. exact parse_blocks_from. Qed.
+
+(** flat scripts (round 2) are the depth-0 case *)
+Theorem C14_parse_flat : forall b, frag_flat b = true ->
   parse_from l_grammar L_EXP (render_block b) = PFuel \/ parse_ok b.
 Proof. exact parse_flat_from. Qed.
+
+Example C14_parse_partial_nonvacuous :
+  frag_block
+    (BCons (SCmd nil (S2 "echo a  b"))
+    (BCons (SWhile nil false (S2 "seq k 0,0,1")
+              (BCons (SIf nil false (S2 "test -f x") (BCons (SBreak nil) BNil)
+                        (AElse nil (BCons (SCmd nil (S2 "ls | wc; date")) (BCons (SCont nil) BNil)) nil))
+              (BCons (SCmd nil (S2 "echo $i")) BNil)))
+    (BCons (SIf nil false (S2 "true") (BCons (SWhile nil false (S2 "false") (BCons (SCmd nil (S2 "x")) BNil)) BNil) (ANone nil))
+     BNil))) = true.
+Proof. vm_compute. reflexivity. Qed.
 
 (** One block, positions only (the span texts of the compound nodes are not yet connected to
     tree_of_script): the script  `while cond` / one or more command lines / `done`  -- cond any
@@ -99,9 +127,7 @@ Theorem C14_parse_while_pos : forall cond l r, cond_ok cond = true -> forallb cm
             Node L_EOI (List.length src) (List.length src) nil :: nil) :: nil)).
 Proof. exact while_script_parses_pos. Qed.
 
-Example C14_parse_partial_nonvacuous :
-  frag_flat (BCons (SCmd nil (S2 "echo a  b")) (BCons (SBreak nil) (BCons (SCmd nil (S2 "ls | wc; date")) BNil))) = true.
-Proof. vm_compute. reflexivity. Qed.
+
 
 (** 3. Unbalanced scripts. If the start rule is anchored at end of input, a
     successful parse has consumed the whole text (so a text whose remainder does
